@@ -11,6 +11,9 @@ CHECKS = {
  'C10': dict(tech=B, cat='model_checking',
              text='LineEnergy/RadRate IR evaluated symbolically; each group macro proved equal (as real expressions) to the stated mean of its member lines for all Z and all table contents; Siegbahn aliases compared with the IUPAC table',
              note='double modelled as real (no rounding claim); cells >= 0; member with rate has an energy for KA/doublets (DL2); EdgeEnergy/CS_FluorLine uninterpreted in LB'),
+ 'C09': dict(tech=B, cat='model_checking',
+             text='cs_line.c IR evaluated symbolically with the primitives as uninterpreted functions: shell value = photo x jump share x yield for each of the 2^4 edge patterns, line -> shell mapping for every 32-bit line value, LB sum, failure iff undefined',
+             note='double modelled as real; primitives >= 0 and error iff 0; DL2: edges ordered K>L1>L2>L3, jump ratios 0 or >= 1'),
 }
 NA = {
  'C19': 'no symbolic engine for Java/JVM bytecode is installed (no JBMC/SPF); a hand-written Java->SMT translator for 5900 lines using ByteBuffer I/O, exceptions and collections is out of reach; see DESIGN.md C19',
